@@ -256,6 +256,11 @@ def _judge(ctx, case, text, obs, exp, stats, who):
             len(set((f["need"]["n"], f["need"].get("frame")) for f in case["frames"] if f["need"]
                     and f["need"].get("frame") not in (None, "me!"))) == 1:
         ctx.hit("same_frame_different_marks")
+    named = [(f["need"].get("frame"), f["need"].get("by")) for f in case["frames"] if f["need"] and f["need"].get("frame") not in (None, "me!")]
+    kinds = set((f["need"]["n"], f["need"].get("frame"), f["need"].get("by")) for f in case["frames"]
+                if f["need"] and f["need"].get("frame") not in (None, "me!"))
+    if any((("updated",) + k in kinds) and (("changed",) + k in kinds) for k in set(named)):
+        ctx.hit("both_kinds_on_one_frame_and_mark")
     ctx.case([text], nontrivial=stats["taken"] >= 1 and stats["refused"] >= 1,
              sample={"program": text, "expected_active_per_tick": exp[:n], "observed": obs[:n]} if stats["taken"] and stats["refused"] else None)
     for t in range(n):
@@ -330,6 +335,7 @@ def run(ctx):
     n = 16
     gca = [ctx.rng.randrange(1 << 30) for _ in range(ctx.pick(240, 8000))]
     ctx.floor("oneshot_condaux_starts", 60)
+    ctx.floor("both_kinds_on_one_frame_and_mark", 40)
     ctx.floor("condaux_refused_starts", 60)
     ctx.shard([{"cases": cases[i::n], "gca": gca[i::n]} for i in range(n)], timeout=ctx.pick(300, 1500))
     ctx.floor("twin_clone_histories", 50)
@@ -377,6 +383,15 @@ def random_case(rng, opts, gated=None, exitwrites=None, twin=False):
         for nm in names:
             if exitwrites or rng.random() < 0.5:
                 exitw[nm] = rng.choice([0, 1, 2, 3])
+    r2 = random.Random(repr((frames, plan)))
+    if r2.random() < 0.2:
+        # an `is updated` and an `is changed` condition on the share that name the same frame and the same mark: the frame's
+        # entry sets both marks (the cases above stay what they were: a generator of its own)
+        named = r2.choice(names)
+        by = r2.choice([None, "k"])
+        two = r2.sample(frames, 2)
+        for f, kind in zip(two, r2.sample(["updated", "changed"], 2)):
+            f["need"] = {"n": kind, "path": ".w", "frame": named, "by": by, "neg": False}
     case = {"frames": frames, "plan": plan, "writer": rng.choice(["front", "back"]), "gates": gates, "exitw": exitw}
     if twin:
         case["exitw"] = {}          # the clones' own writes would be updates for each other
